@@ -110,6 +110,8 @@ class Gen:
                 o["src"] = r.choice(comps)
             else:
                 s, d = r.sample(comps, 2)
+                if want.get("self_flow") and kind == "transition" and r.random() < want["self_flow"]:
+                    d = s        # a flow from a compartment to itself (counts events; moves nobody)
                 if kind.startswith("infection"):
                     d = r.choice(inf) if r.random() < 0.8 else d
                     if s == d:
@@ -263,6 +265,12 @@ class Gen:
                 ops.append(o2)
                 flow_names.append(o2["name"])
                 meta["flows"].append("post-strat")
+            if want.get("post_import") and len(strata) >= 2 and r.random() < want["post_import"]:
+                d = r.choice(scomps)
+                ops.append({"op": "flow", "kind": "importation", "name": "pimp%d" % k, "param": frac(r, 1), "dst": d,
+                            "split": True, "df": {name: r.choice(strata)}})
+                flow_names.append("pimp%d" % k)
+                meta["flows"].append("post-strat split importation")
             if want.get("cross_strain") and kind == "strain" and len(strata) >= 2 and kinds_nonlin and len(scomps) >= 1 \
                     and r.random() < want["cross_strain"]:
                 # re-infection with another strain: an infection flow whose source and destination carry different strains
@@ -309,15 +317,27 @@ class Gen:
         # derived output requests
         reqs = []
         if want.get("requests", r.random() < 0.5):
-            ops_r, reqs = self.requests(comps, flow_names, used, strat_strata, ncomp, cross)
+            ops_r, reqs = self.requests(comps, flow_names, used, strat_strata, ncomp, cross, want)
+            if want.get("early_requests") and r.random() < want["early_requests"]:
+                # flow outputs requested before the last stratification (requests refer to flows by name, so
+                # the later stratification must not change what they mean)
+                last = max((i for i, o_ in enumerate(ops) if o_["op"] == "strat"), default=None)
+                early = [o_ for o_ in ops_r if o_["op"] == "req" and o_["req"]["type"] == "flow"
+                         and not o_["req"].get("sf") and not o_["req"].get("df")
+                         and (last is None or any(f_["op"] in ("flow", "udeath") and f_["name"] == o_["req"]["flow_name"] for f_ in ops[:last]))]
+                if last is not None and early:
+                    ops_r = [o_ for o_ in ops_r if o_ not in early]
+                    ops = ops[:last] + early + ops[last:]
+                    meta["flows"].append("early flow requests")
             ops += ops_r
             meta["reqs"] = [x["req"]["type"] for x in ops_r if x["op"] == "req"]
         prog = {"times": [t0, t1, h], "comps": comps, "inf": inf, "ops": ops, "obs": [], "meta": meta,
                 "nonlinear": bool(kinds_nonlin or allow_state)}
         return prog
 
-    def requests(self, comps, flow_names, used, strat_strata, ncomp, cross=None):
+    def requests(self, comps, flow_names, used, strat_strata, ncomp, cross=None, want=None):
         r = self.rng
+        want = want or {}
         ops, names = [], []
         for nm_, (sname_, a_, bs_) in sorted((cross or {}).items())[:1]:
             # outflow of a stratum and inflow into strata, for the same flow name: the same pairs on either end
@@ -347,6 +367,11 @@ class Gen:
                             ops.append({"op": "req", "name": nm + "t", "save": True, "req": twin})
                             names.append(nm + "t")
                 else:
+                    if want.get("full_filters") and len(used) >= 2 and r.random() < want["full_filters"]:
+                        # a stratum of every stratification, the keys written in any order
+                        ks = list(used)
+                        r.shuffle(ks)
+                        filt = {u_: r.choice(strat_strata[u_]) for u_ in ks}
                     rq = {"type": "comp", "names": r.sample(comps, r.randint(1, len(comps))), "filt": filt}
             elif c < 0.5:
                 rq = {"type": "agg", "sources": [r.choice(names) for _ in range(r.randint(1, 3))]}
